@@ -133,3 +133,43 @@ Theorem C15_dot_recv_truncated :
     dot_recv (flat_map dot_fr msgs ++ firstn k (dot_fr p)) = (msgs, false).
 Proof. exact dot_recv_truncated. Qed.
 Print Assumptions C15_dot_recv_truncated.
+
+(* ---- concurrent requests: the responder's answer is a function of the request datagram alone ----
+   `serve` = map over the datagrams in arrival order.  Any number of requesters, queries arriving in any order and
+   among any other datagrams: each query is served from its own bytes, the callback gets that requester's payload, the
+   response carries that requester's DNS ID and decodes under its cipher to the callback's answer for its payload. *)
+Theorem C15_dns_serve_order_irrelevant :
+  forall b32dec cipher noise_read cs_encrypt k dom process a1 a2,
+    Permutation.Permutation a1 a2 ->
+    Permutation.Permutation (serve b32dec cipher noise_read cs_encrypt k dom process a1)
+                            (serve b32dec cipher noise_read cs_encrypt k dom process a2).
+Proof. exact serve_permutation. Qed.
+Print Assumptions C15_dns_serve_order_irrelevant.
+
+Theorem C15_dns_exchange_concurrent :
+  forall b32enc b32dec cipher noise_write noise_read cs_encrypt cs_decrypt pub_of,
+    exchange_laws b32enc b32dec cipher noise_write noise_read cs_encrypt cs_decrypt pub_of ->
+    forall k dom process (reqs : list (xreq cipher)) arrived,
+      Forall (xreq_ok b32enc cipher noise_write pub_of k dom) reqs ->
+      (forall x, In x reqs -> In (x_qw cipher x) arrived) ->
+      Forall (fun x =>
+        In (x_qw cipher x, snd (responder_handle b32dec cipher noise_read cs_encrypt k dom process (x_qw cipher x)))
+           (serve b32dec cipher noise_read cs_encrypt k dom process arrived) /\
+        get_u16 (x_qw cipher x) 0 = Some (x_id cipher x) /\
+        fst (responder_handle b32dec cipher noise_read cs_encrypt k dom process (x_qw cipher x)) = Some (x_payload cipher x) /\
+        forall r rw, process (x_payload cipher x) = Some r ->
+          snd (responder_handle b32dec cipher noise_read cs_encrypt k dom process (x_qw cipher x)) = Some rw ->
+          requester_receive cipher cs_decrypt (x_cs cipher x) dom rw = Some r \/
+          requester_receive cipher cs_decrypt (x_cs cipher x) dom rw = cs_decrypt (x_cs cipher x) []) reqs.
+Proof. exact exchange_concurrent. Qed.
+Print Assumptions C15_dns_exchange_concurrent.
+
+Theorem C15_dns_exchange_response_id :
+  forall b32enc b32dec cipher noise_write noise_read cs_encrypt cs_decrypt pub_of,
+    exchange_laws b32enc b32dec cipher noise_write noise_read cs_encrypt cs_decrypt pub_of ->
+    forall k dom process (x : xreq cipher) r,
+      xreq_ok b32enc cipher noise_write pub_of k dom x -> process (x_payload cipher x) = Some r ->
+      forall rw, snd (responder_handle b32dec cipher noise_read cs_encrypt k dom process (x_qw cipher x)) = Some rw ->
+        get_u16 rw 0 = Some (x_id cipher x).
+Proof. exact exchange_response_id. Qed.
+Print Assumptions C15_dns_exchange_response_id.
